@@ -312,6 +312,52 @@ def run(chk):
     chk.traces += len(recs) - nbad
     for rec, m in events:
         chk.judged((str(m["cli"]), str(m["file"]), m["disc"], m["kind"], m.get("lang")))
+    existing_files(chk)
+
+
+EXISTING_BYTES = {"config": b'[swift]\nprefix = "Keep"\n', "empty": b"", "blank": b"  \n\t\n", "non_utf8": b"# caf\xe9 configuration\n[swift]\nprefix = \"Keep\"\n",
+                  "not_toml": b"this is not = = toml [\n", "utf16": '[swift]\nprefix = "Keep"\n'.encode("utf-16"), "one_byte": b"#"}
+
+
+def existing_files(chk):
+    """MC_C20_existing: -g never overwrites what lies at the path it would write."""
+    res = common.run_tlc("MC_C20_existing", cfg="MC_C20_existing", workers=2, timeout=300)
+    chk.add_tlc("MC_C20_existing", res)
+    if not res.replays:
+        raise ToolError("MC_C20_existing produced no cases")
+    work = common.scratch("c20e")
+    recs, meta = [], []
+    for k, c in enumerate(res.replays):
+        d = os.path.join(work, f"e{k}")
+        os.makedirs(os.path.join(d, "cwd", "conf", "deep"))
+        path = {"default": os.path.join(d, "cwd", "typeshare.toml"), "flag": os.path.join(d, "cwd", "my-config.toml"),
+                "flag_nested": os.path.join(d, "cwd", "conf", "deep", "ts.toml")}[c["target"]]
+        if c["existing"] == "symlink":
+            real = os.path.join(d, "elsewhere.toml")
+            open(real, "wb").write(EXISTING_BYTES["config"])
+            os.symlink(real, path)
+        else:
+            open(path, "wb").write(EXISTING_BYTES[c["existing"]])
+            real = path
+        before = open(real, "rb").read()
+        args = ["-g", "--swift-prefix", "Other"] + ([] if c["target"] == "default" else ["-c", os.path.relpath(path, os.path.join(d, "cwd"))]) + ["."]
+        r = cli.run_cli(args, cwd=os.path.join(d, "cwd"), timeout=20)
+        if r["exit"] in ("panic", "timeout", "signal"):
+            continue          # C07
+        recs.append({"ev": "nooverwrite", "failed": r["exit"] == "error", "intact": open(real, "rb").read() == before and (c["existing"] != "symlink" or os.path.islink(path))})
+        meta.append(c)
+    ok, matched, tres = common.trace_validate("Trace_C20", recs, timeout=300)
+    chk.add_tlc("Trace_C20[existing]", tres)
+    if matched != len(recs):
+        raise ToolError(f"Trace_C20 consumed {matched}/{len(recs)}")
+    for b in tres.bad:
+        rec, c = recs[b - 1], meta[b - 1]
+        chk.mismatch(f"C20/nooverwrite/existing={c['existing']}/failed={rec['failed']}/intact={rec['intact']}",
+                     f"-g onto an existing file ({c['existing']}, path named by {c['target']}): run failed={rec['failed']}, bytes intact={rec['intact']}",
+                     {"existing": c}, "the run fails and the file keeps its bytes", rec)
+    chk.traces += len(recs) - len(tres.bad)
+    for c in meta:
+        chk.judged(("existing", c["existing"], c["target"]))
 
 
 def replay(chk, rec):
